@@ -8,6 +8,7 @@ import (
 	"io"
 	"net/url"
 	"path/filepath"
+	"sort"
 	"strings"
 
 	"github.com/valyala/fastjson"
@@ -362,15 +363,14 @@ func irisEqual(i1, i2 IRI, checkScheme bool) bool {
 		if len(uqv) != len(uwqv) {
 			return false
 		}
-		for _, uqvv := range uqv {
-			eq := false
-			for _, uwqvv := range uwqv {
-				if uwqvv == uqvv {
-					eq = true
-					continue
-				}
-			}
-			if !eq {
+		// NOTE: the values of a repeated key are compared as multisets: looking each value of one side up in the
+		// other is not symmetric when values repeat ("x=1&x=1" vs "x=1&x=2")
+		a := append([]string{}, uqv...)
+		b := append([]string{}, uwqv...)
+		sort.Strings(a)
+		sort.Strings(b)
+		for k := range a {
+			if a[k] != b[k] {
 				return false
 			}
 		}
